@@ -638,6 +638,11 @@ func (c *Cache[K, V]) shardByHash(hash uint64) *shard[K, V] {
 // is stamped and compared in this domain, so TTLs ignore wall-clock jumps (NTP
 // steps, manual changes).
 func (c *Cache[K, V]) nowNano() int64 {
+	if verifEnabled {
+		if t, ok := verifClock(); ok {
+			return t
+		}
+	}
 	return time.Since(c.clockBase).Nanoseconds()
 }
 
